@@ -69,16 +69,25 @@ Proof. exact clamp_inv_id_inside. Qed.
 Print Assumptions C12_clamp_inv_id_inside.
 
 (* ---------- object level: all operation lists ----------------------------- *)
+(* The heap machine of coq/Scale/ScaleState.v: ONE heap of list cells; scales
+   may share cells in every combination (the caller hands the same list to
+   several scales, or hands one scale's own domain()/range() list to another).
+   No operation writes into an existing cell: *)
+Theorem C12_ss_cells_immutable : forall ops st c v,
+  nth_error (heap st) c = Some v -> nth_error (heap (run ops st)) c = Some v.
+Proof. exact ss_cells_immutable. Qed.
+Print Assumptions C12_ss_cells_immutable.
+
 (* ss_inv st: every scale's closures hold exactly the end points of the domain
-   and range cells it points to (= reports) and its current clamp flag; no two
-   scales share a domain list *)
+   and range cells it points to (= reports) and its current clamp flag.  For
+   ALL histories, shared cells included, no disjointness side condition. *)
 Theorem C12_ss_invariant : forall ops, ss_inv (run ops init).
 Proof. exact ss_invariant. Qed.
 Print Assumptions C12_ss_invariant.
 
-(* hence: after ANY sequence of new/domain/range/clamp/nice/copy calls every
-   scale maps the end points of the domain it reports to the end points of the
-   range it reports *)
+(* hence: after ANY sequence of constructor/domain/range/clamp/nice/copy calls
+   every scale maps the end points of the domain it reports to the end points
+   of the range it reports *)
 Theorem C12_ss_endpoints : forall ops i a b r0 r1,
   let st := run ops init in
   observe st i QDomain = APair (a, b) -> observe st i QRange = APair (r0, r1) -> ~ a == b ->
@@ -88,7 +97,8 @@ Proof. exact ss_endpoints. Qed.
 Print Assumptions C12_ss_endpoints.
 
 (* no operation list that does not write to scale t changes any observation of
-   t (Leibniz equality: the same numbers, not merely equal ones) *)
+   t (Leibniz equality: the same numbers, not merely equal ones) - even when
+   the other scales hold t's own list objects *)
 Theorem C12_ss_independent : forall pre ops t q,
   let st := run pre init in
   (t < length (scales st))%nat ->
@@ -113,19 +123,12 @@ Theorem C12_ss_copy_independent : forall pre i ops q,
 Proof. exact ss_copy_independent. Qed.
 Print Assumptions C12_ss_copy_independent.
 
-(* range lists handed in by the caller may be shared between scales; nothing
-   ever writes into one, so this is harmless *)
-Theorem C12_ss_range_cells_immutable : forall ops st c r,
-  nth_error (rheap st) c = Some r -> nth_error (rheap (run ops st)) c = Some r.
-Proof. exact ss_range_cells_immutable. Qed.
-Print Assumptions C12_ss_range_cells_immutable.
-
-Theorem C12_ss_domains_disjoint : forall ops i j si sj,
+Theorem C12_ss_no_dangling : forall ops j s,
   let st := run ops init in
-  nth_error (scales st) i = Some si -> nth_error (scales st) j = Some sj ->
-  dom si = dom sj -> i = j.
-Proof. exact ss_domains_disjoint. Qed.
-Print Assumptions C12_ss_domains_disjoint.
+  nth_error (scales st) j = Some s ->
+  (dom s < length (heap st))%nat /\ (rng s < length (heap st))%nat.
+Proof. exact ss_no_dangling. Qed.
+Print Assumptions C12_ss_no_dangling.
 
 (* ---------- non-vacuity ---------------------------------------------------- *)
 Example C12_ex_point :
@@ -138,9 +141,10 @@ Proof. vm_compute. repeat split. Qed.
 
 (* the history of DESIGN.md A.6: s.domain([0.3,9.7]).range([0,100]); c = s.copy();
    c.nice(): the original still reports [0.3,9.7] and maps 0.3 to 0, the copy
-   reports [0,10] and maps 0 to 0 *)
+   reports [0,10] and maps 0 to 0.  Cells: 0,1 = defaults of s; 2 = [0,100];
+   3 = [0.3,9.7]; 4,5 = the copy's lists; 6 = the copy's nice domain *)
 Definition C12_A6 : list op :=
-  [ONew; OAllocR (0, 100); ODomain 0 (3#10, 97#10); ORange 0 1; OCopy 0; ONice 1 10].
+  [ONew; OAlloc (0, 100); ODomain 0 (3#10, 97#10); ORange 0 2; OCopy 0; ONice 1 10].
 Example C12_ex_history :
   let st := run C12_A6 init in
   observe st 0 QDomain = APair (3#10, 97#10) /\
@@ -150,4 +154,27 @@ Example C12_ex_history :
   forallb (fun o => negb (touches 0 o)) [ONice 1 10; ODomain 1 (5, 7); OCopy 1] = true.
 Proof.
   vm_compute. repeat split; eexists; split; reflexivity.
+Qed.
+
+(* the audit history (B6): c = s.copy(); c.range(s.domain()); s.nice(): the copy
+   holds the original's own domain list as its range; nice() on the original
+   allocates a new list, so the copy still reports the range [0.3,9.7] and
+   maps its domain end points onto it *)
+Definition C12_B6 : list op :=
+  [ONew; OAlloc (0, 100); ODomain 0 (3#10, 97#10); ORange 0 2; OCopy 0;
+   ORangeOfDomain 1 0; ONice 0 10].
+Example C12_ex_alias :
+  let st := run C12_B6 init in
+  observe st 0 QDomain = APair (0, 10) /\
+  observe st 1 QRange = APair (3#10, 97#10) /\
+  observe st 1 QDomain = APair (3#10, 97#10) /\
+  (exists v, observe st 1 (QCall (97#10)) = ANum v /\ Qeq_bool v (97#10) = true) /\
+  (exists s0 s1, nth_error (scales (run [ONew; OAlloc (0, 100); ODomain 0 (3#10, 97#10); ORange 0 2;
+                                         OCopy 0; ORangeOfDomain 1 0] init)) 0 = Some s0 /\
+                 nth_error (scales (run [ONew; OAlloc (0, 100); ODomain 0 (3#10, 97#10); ORange 0 2;
+                                         OCopy 0; ORangeOfDomain 1 0] init)) 1 = Some s1 /\
+                 rng s1 = dom s0).
+Proof.
+  vm_compute. repeat split; try (eexists; split; reflexivity).
+  eexists. eexists. repeat split.
 Qed.
